@@ -10,7 +10,7 @@ executions or during one)."""
 import itertools
 import json
 
-from common import clist, cZ, cbool, copt
+from common import clist, cZ, cbool, copt, cstr, cnat
 import c13_impl
 
 PROP = 'C13'
@@ -23,11 +23,14 @@ ASSUMPTIONS = [
     '0 to 3 producers, duck-typed job, producer and task objects; in the engine-level scripts the script delivers the '
     'producers-finished notification; in the producer-level scripts the real ComponentState.stageIn runs (on a duck-typed '
     'ComponentState whose producers\' notifyFinished are rx Subjects, with an immediate scheduler instead of the thread pool) '
-    'and delivers it; the optimizer-driven repeat interval is disabled; '
+    'and delivers it, to the producers the real ComponentState.producers property finds (real DataReference objects resolved in '
+    'a hand-built networkx workflow graph + loop placeholders; the real Job.producerInstances over the same graph); '
+    'the optimizer-driven repeat interval is disabled; '
     'Engine.emit_now (state emission on rx pools) and archive_stream are stubbed',
     'task durations are positive (a zero duration makes _perfData_launch_succeeded divide by zero)',
 ]
 HEADER = 'Require Import V.Repeat.Model.\nOpen Scope Z_scope.'
+HEADER4 = 'Require Import V.Repeat.Model V.Repeat.RefsModel.\nOpen Scope Z_scope.'
 F13_CLASS = 'repeatRetries_below_threshold'
 
 
@@ -47,8 +50,14 @@ def CFG(**k):
     return c
 
 
-def PR(same_stage=True, prod_rep=True):
-    return {'same_stage': same_stage, 'prod_rep': prod_rep}
+def PR(same_stage=True, prod_rep=True, **where):
+    # where (producer-level scripts only): stage=, name=, inst=  (see c13_impl.ref_layout)
+    return dict({'same_stage': same_stage, 'prod_rep': prod_rep}, **where)
+
+
+def REF(*to, **k):
+    # one data reference of the observer: REF(i) absolute, REF(i, via='rel'), REF(i, j, via='loop', method='loopref')
+    return {'to': list(to), 'via': k.get('via', 'abs'), 'file': k.get('file'), 'method': k.get('method', 'ref')}
 
 
 def eff_retries(cfg):
@@ -111,6 +120,37 @@ def coq_case3(cfg, steps, res):
     return '(%s, (%s : list bool), %s, (%s, %s, (%s : list exec)))' % (
         coq_cfg(cfg), clist([cbool(b) for b in cfg['alive0']]), sts,
         clist([coq_obs(o) for o in res['obs']]), cbool(res['finished']), xs)
+
+
+def coq_cid(stage, name):
+    return '{| i_stage := %s; i_name := %s |}' % (cZ(stage), cstr(name))
+
+
+def coq_graph(lay):
+    """the workflow graph of a producer-level script: the producers' nodes, the unrelated components, the observer"""
+    nodes = []
+    for i, p in enumerate(lay['prods']):
+        nodes.append('{| g_id := %s; g_comp := %s |}' % (coq_cid(p['stage'], p['name']), copt(i if p['inst'] else None, cnat)))
+    for k, x in enumerate(lay['extra']):
+        nodes.append('{| g_id := %s; g_comp := %s |}' % (coq_cid(x['stage'], x['name']),
+                                                       copt(c13_impl.STRANGER_IDX + k if x['inst'] else None, cnat)))
+    nodes.append('{| g_id := %s; g_comp := Some %s |}' % (coq_cid(c13_impl.OBS_STAGE, c13_impl.OBS_NAME), cnat(c13_impl.OBS_IDX)))
+    return '(%s : list gnode)' % clist(nodes)
+
+
+def coq_case4(cfg, steps, res):
+    """a producer-level script with the observer's references:
+    (cfg, graph, references, producers alive at stageIn, script, outputs, the implementation's producer list)"""
+    lay = c13_impl.ref_layout(cfg)
+    xs = clist(['{| x_launch := %s; x_pf := %s; x_rc := %s |}' % (cZ(t), cbool(p), copt(rc, cZ))
+                for (t, p, rc, _lo, _k) in res['execs']])
+    sts = clist(['(%s, (%s : list pevent), %s)' % (cZ(0 if i == 0 else st['dt']), clist([coq_pev(e) for e in st['evs']]),
+                                                   coq_out(st['o'])) for i, st in enumerate(steps)])
+    refs = '(%s : list (list cid))' % clist([clist([coq_cid(*c) for c in ids]) for ids in c13_impl.ref_ids(lay)])
+    w = copt(res['w'], lambda l: '(%s : list nat)' % clist([cnat(i) for i in l]))
+    return '(%s, %s, %s, (%s : list bool), %s, (%s, %s, (%s : list exec)), %s)' % (
+        coq_cfg(cfg), coq_graph(lay), refs, clist([cbool(b) for b in cfg['alive0']]), sts,
+        clist([coq_obs(o) for o in res['obs']]), cbool(res['finished']), xs, w)
 
 
 def coq_case(cfg, steps, res):
@@ -201,6 +241,45 @@ def predicate(ctx, cfg, steps, res):
             ctx.count('final_output_seen')
 
 
+def check_producer_lists(ctx, cfg, used, res):
+    """whom the observer waits for (mirror of C13_producer_list_complete / _exact): every living instantiated producer
+    the observer references is in ComponentState.producers, nothing else is; Job.producerInstances (canConsume,
+    producersHaveOutputSinceDate) is made of exactly the referenced producers"""
+    case = {'cfg': cfg, 'steps': used}
+    lay = c13_impl.ref_layout(cfg)
+    targets = c13_impl.ref_targets(lay)
+    referenced = sorted({i for to in targets for i in to})
+    keys = [(p['stage'], p['name']) for p in lay['prods']]
+    names = [p['name'] for p in lay['prods']] + [x['name'] for x in lay['extra']] + [c13_impl.OBS_NAME]
+    if len(set(names)) < len(names):
+        ctx.count('refs_name_clash_across_stages')
+    if sum(len(to) for to in targets) > len(referenced):
+        ctx.count('refs_duplicate_references')
+    if any(not p['inst'] for p in lay['prods']):
+        ctx.count('refs_uninstantiated_producer')
+    if any(r['via'] == 'loop' for r in lay['refs']):
+        ctx.count('refs_loop_placeholder')
+    if any(r['via'] == 'rel' for r in lay['refs']):
+        ctx.count('refs_relative')
+    w = res['w']
+    if w is not None:
+        missing = [keys[i] for i in referenced if lay['prods'][i]['inst'] and cfg['alive0'][i] and i not in w]
+        if missing:
+            ctx.fail(case, 'ComponentState.producers %s does not list the living producer(s) %s the observer references: stageIn '
+                           'does not wait for them' % (w, missing))
+        strange = [i for i in w if i not in referenced or not lay['prods'][i]['inst']]
+        if strange:
+            ctx.fail(case, 'ComponentState.producers %s lists component(s) %s the observer does not reference (or that have no '
+                           'ComponentState)' % (w, strange))
+    pi = res['pinst']
+    nprod = len(c13_impl.prod_list(cfg))
+    if any(p['loop_only'] for p in lay['prods']):
+        ctx.count('refs_waited_for_through_loop_reference_only')
+    if pi is not None and sorted(set(pi)) != list(range(nprod)):
+        ctx.fail(case, 'Job.producerInstances %s is not made of the observer\'s %d producers: canConsume / '
+                       'producersHaveOutputSinceDate look at the wrong components' % (pi, nprod))
+
+
 # ------------------------------------------------------------------ exploration
 def explore(ctx, cases, label='C13 trace'):
     drv = c13_impl.Driver()
@@ -233,6 +312,7 @@ def explore(ctx, cases, label='C13 trace'):
                 ctx.count('stagein_scripts')
                 if any('Notify' in st['evs'] for st in seen):
                     ctx.count('stagein_notification_delivered')
+                check_producer_lists(ctx, cfg, used, res)
             notified_running = any('Notify' in st['evs'] or st['o'].get('ntf') for st in seen)
             nontriv = bool(res['execs']) and notified_running
             ctx.case([cfg, used], nontriv)
@@ -249,7 +329,7 @@ def explore(ctx, cases, label='C13 trace'):
                 ctx.disagree({'cfg': cfg, 'steps': used}, res['obs'], None, label + ': exit reason outside the model')
                 continue
             if stagein:
-                terms3.append((coq_case3(cfg, used, res), cfg, used, res))
+                terms3.append((coq_case4(cfg, used, res), cfg, used, res))
                 continue
             terms.append((coq_case(cfg, used, res), cfg, used, res))
             if nontriv:
@@ -266,12 +346,16 @@ def explore(ctx, cases, label='C13 trace'):
         ctx.disagree({'cfg': cfg, 'steps': used}, {'obs': res['obs'], 'finished': res['finished'],
                                                    'execs': [e[:3] for e in res['execs']]}, m,
                      label + ': RepeatingEngine/CreateMonitor vs Repeat.Model.run_steps')
-    bad = ctx.model_mismatches(HEADER, [t[0] for t in terms3], 'check_case3', chunk=250) if terms3 else []
+    bad = ctx.model_mismatches(HEADER4, [t[0] for t in terms3], 'check_case4', chunk=250, name='model4') if terms3 else []
     for k, i in enumerate(bad):
         _, cfg, used, res = terms3[i]
-        ctx.disagree({'cfg': cfg, 'steps': used}, {'obs': res['obs'], 'finished': res['finished'],
-                                                   'execs': [e[:3] for e in res['execs']], 'reached_engine': res['eff']}, '',
-                     label + ': ComponentState.stageIn + RepeatingEngine/CreateMonitor vs Repeat.Model.run_steps3 (producer model)')
+        lay = c13_impl.ref_layout(cfg)
+        m = ctx.model_eval(HEADER4, 'producers_of %s (%s : list (list cid))' % (
+            coq_graph(lay), clist([clist([coq_cid(*c) for c in ids]) for ids in c13_impl.ref_ids(lay)]))) if k < 2 else ''
+        ctx.disagree({'cfg': cfg, 'steps': used}, {'producers': res['w'], 'obs': res['obs'], 'finished': res['finished'],
+                                                   'execs': [e[:3] for e in res['execs']], 'reached_engine': res['eff']}, m,
+                     label + ': ComponentState.producers + stageIn + RepeatingEngine/CreateMonitor vs Repeat.RefsModel.producers_of / '
+                             'run_steps4 (producer list and producer model)')
 
 
 OUTCOME_PATTERNS = [
@@ -395,7 +479,123 @@ def gen_stagein(rng, thorough):
         o = O(rc=rng.choice([0, 0, 1, 1, 2]), dur=rng.choice([1, 500, 1000, 4000, 7000, 26000]),
               fail=rng.random() < 0.08, sui=cfg['has_delay'] and rng.random() < 0.1, re=rng.random() < 0.1)
         steps.append(S(rng.choice([5000, 5000, 5001, 5500, 7000, 12000]), evs, o))
+    if rng.random() < 0.7:
+        # the producers' place in the workflow graph and the observer's references to them (otherwise: distinct names,
+        # one absolute reference each)
+        gen_layout(rng, cfg, steps)
     return cfg, steps
+
+
+NAME_POOL = ['sim', 'sim', 'a', 'obs', 'post-proc_1']
+METHODS = ['ref', 'ref', 'copy', 'link', 'copyout', 'extract', 'output']
+
+
+def gen_layout(rng, cfg, steps):
+    """where the producers of a producer-level script live and how the observer references them: component names drawn
+    from a small pool (so names CLASH across stages - a name is unique within its stage only -, also with unrelated
+    components and with the observer's own name), earlier-stage producers that were not instantiated, every
+    producer referenced directly at least once (absolute or, same stage, relative; with/without a file; any
+    method), plus duplicate references and loop placeholders, in any order"""
+    prods = cfg['prods']
+    used = {(c13_impl.OBS_STAGE, c13_impl.OBS_NAME)}
+
+    def fresh(stage, fallback):
+        for _ in range(4):
+            nm = rng.choice(NAME_POOL)
+            if (stage, nm) not in used:
+                break
+        else:
+            nm = fallback
+        used.add((stage, nm))
+        return nm
+    for i, p in enumerate(prods):
+        p['stage'] = c13_impl.OBS_STAGE if p['same_stage'] else rng.choice([0, 1])
+        p['name'] = fresh(p['stage'], 'p%d' % i)
+        if p['stage'] != c13_impl.OBS_STAGE and not cfg['alive0'][i] and rng.random() < 0.35:
+            p['inst'] = False
+    extra = []
+    for k in range(rng.choice([0, 0, 1, 2])):
+        st = rng.choice([0, 1, 2])
+        extra.append({'stage': st, 'name': fresh(st, 'x%d' % k), 'inst': rng.random() < 0.8})
+    cfg['extra'] = extra
+
+    def direct(i):
+        m = rng.choice(METHODS)
+        f = rng.choice([None, 'out.txt', 'dir/x.dat']) if m != 'output' else 'out.txt'
+        via = 'rel' if (prods[i]['same_stage'] and rng.random() < 0.4) else 'abs'
+        return REF(i, via=via, file=f, method=m)
+    refs = [direct(i) for i in range(len(prods))]
+    if prods:
+        for _ in range(rng.choice([0, 0, 1, 1, 2, 3])):
+            if rng.random() < 0.65:
+                refs.append(direct(rng.randrange(len(prods))))
+            else:
+                to = rng.sample(range(len(prods)), rng.randint(1, len(prods)))
+                refs.append(REF(*to, via='loop', file=rng.choice([None, 'out.txt']), method=rng.choice(['loopref', 'loopref', 'ref', 'loopoutput'])))
+    if prods and rng.random() < 0.3:
+        # a component the observer only waits for: one of those a loop reference stands for, not the latest
+        st = rng.choice([0, 1, 2, 2])
+        k = len(prods)
+        prods.append(PR(st == c13_impl.OBS_STAGE, True, stage=st, name=fresh(st, 'lp'), loop_only=True))
+        cfg['alive0'].append(rng.random() < 0.8)
+        to = [k] + rng.sample(range(k), rng.randint(1, k))
+        refs.append(REF(*to, via='loop', file=rng.choice([None, 'out.txt']), method='loopref'))
+        f = rng.choice([None] + list(range(len(steps))) * 4)
+        if f is not None:
+            steps[f]['evs'].insert(rng.randint(0, len(steps[f]['evs'])), 'Fin%d' % k)
+    rng.shuffle(refs)
+    cfg['refs'] = refs
+    return cfg
+
+
+def exhaustive_refs(n):
+    """the observer's running same-stage subject and a producer of an earlier stage (finished and instantiated /
+    finished and not instantiated / still alive), with the SAME component name or distinct names, referenced in
+    every order with and without duplicates (and through a loop placeholder) x every finishing step of the subject
+    x 2 outcome patterns; plus an unrelated same-named component next to two same-stage producers"""
+    cases = []
+    places = [None] + list(range(n))
+    orders = [[REF(0), REF(1)], [REF(1), REF(0)], [REF(0, via='rel'), REF(1), REF(0, file='out.txt', method='copy')],
+              [REF(1), REF(0), REF(1, file='x.dat', method='link')], [REF(1, 0, via='loop', method='loopref'), REF(0), REF(1)],
+              [REF(0), REF(1), REF(0, 1, via='loop', method='loopref')]]
+    for clash in (True, False):
+        for (alive1, inst1) in ((False, True), (False, False), (True, True)):
+            for refs in orders:
+                for f0 in places:
+                    for pat in OUTCOME_PATTERNS[:2]:
+                        steps = []
+                        for i in range(n):
+                            evs = []
+                            if i == 0 or i == n - 1:
+                                evs.append('Out')
+                            if f0 == i:
+                                evs.append('Fin0')
+                            if alive1 and i == 0:
+                                evs += ['Out1', 'Fin1']
+                            steps.append(S(5000, evs, pat(i)))
+                        prods = [PR(stage=2, name='sim'), PR(same_stage=False, stage=0, name='sim' if clash else 'old', inst=inst1)]
+                        cases.append((CFG(retries=1, prods=prods, alive0=[True, alive1], refs=[dict(r) for r in refs]), steps))
+    # a loop reference stands for the subject (the latest iteration) AND for an earlier iteration that is still running:
+    # the observer waits for both although only the latest is one of the job's producers
+    for (st1, nm1) in ((2, 'sim-0'), (1, 'sim')):
+        for refs in ([REF(1, 0, via='loop', method='loopref')], [REF(0), REF(1, 0, via='loop', method='loopref', file='out.txt')]):
+            for f1 in places:
+                steps = []
+                for i in range(n):
+                    evs = (['Out'] if i in (0, n - 1) else []) + (['Fin0'] if i == 0 else []) + (['Fin1'] if f1 == i else [])
+                    steps.append(S(5000, evs, O()))
+                cases.append((CFG(retries=1, prods=[PR(stage=2, name='sim'), PR(st1 == 2, True, stage=st1, name=nm1, loop_only=True)],
+                                  alive0=[True, True], refs=[dict(r) for r in refs]), steps))
+    for f in places:
+        for refs in ([REF(0), REF(1)], [REF(1, via='rel'), REF(0, via='rel'), REF(1)]):
+            steps = []
+            for i in range(n):
+                evs = (['Out', 'Out1'] if i in (0, n - 1) else []) + (['Fin0'] if i == 0 else []) + (['Fin1'] if f == i else [])
+                steps.append(S(5000, evs, O()))
+            cases.append((CFG(retries=1, prods=[PR(stage=2, name='a'), PR(stage=2, name='b')], alive0=[True, True], refs=refs,
+                              extra=[{'stage': 0, 'name': 'b'}, {'stage': 1, 'name': 'a', 'inst': False}, {'stage': 1, 'name': 'obs'}]),
+                          steps))
+    return cases
 
 
 def exhaustive_stagein(n):
@@ -450,6 +650,22 @@ def corpus():
     # a producer of another stage is not waited for; three producers, old output of all, notified before run() (F13 shape)
     c.append((CFG(prods=[PR(), PR(same_stage=False)]), [S(0, ['Out']), S(), S(5000, ['Out1']), S(), S(5000, ['Notify']), S(), S()]))
     c.append((CFG(retries=1, prods=[PR(), PR(), PR()]), [S(0, ['Out', 'Out1', 'Out2', 'Notify'])] + [S() for _ in range(4)]))
+    # whom the observer waits for (producer-level, the REAL ComponentState.producers): the running same-stage subject
+    # stage2.sim and the finished stage0.sim share their NAME; the subject is referenced first / last / twice, the old
+    # one is instantiated or not: the observer waits for the subject and sees its final output
+    subj = [S(0, ['Out']), S(), S(5000, ['Out']), S(), S(5000, ['Out', 'Fin0']), S(), S(), S(), S()]
+    for refs in ([REF(0), REF(1)], [REF(1), REF(0)], [REF(0, via='rel', file='out.txt', method='copy'), REF(0), REF(1)]):
+        for inst in (True, False):
+            c.append((CFG(prods=[PR(stage=2, name='sim'), PR(same_stage=False, stage=0, name='sim', inst=inst)],
+                          alive0=[True, False], refs=refs), [dict(st, evs=list(st['evs']), o=dict(st['o'])) for st in subj]))
+    # ... the earlier-stage producer shares the OBSERVER's name, an unrelated stage1.sim exists; a loop reference
+    c.append((CFG(prods=[PR(stage=2, name='sim'), PR(same_stage=False, stage=0, name='obs')], alive0=[True, True],
+                  refs=[REF(0, 1, via='loop', method='loopref'), REF(1), REF(0)], extra=[{'stage': 1, 'name': 'sim'}]),
+              [S(0, ['Out', 'Out1', 'Fin1']), S(), S(5000, ['Out', 'Fin0']), S(), S(), S(), S()]))
+    # ... a loop reference standing for the finished latest iteration and a still running earlier one: waited for
+    c.append((CFG(prods=[PR(stage=2, name='sim'), PR(stage=2, name='sim-0', loop_only=True)], alive0=[True, True],
+                  refs=[REF(1, 0, via='loop', method='loopref')]),
+              [S(0, ['Out']), S(), S(5000, ['Out', 'Fin0']), S(), S(5000, ['Fin1']), S(), S(), S(), S()]))
     return c
 
 
@@ -461,7 +677,10 @@ def run(ctx):
                 'of repeatRetries/interval/producer kinds; plus random scripts (<= 14/20 polls; jittered poll times, launch failures, '
                 'kill-delay timer between or during executions, external kill, late output); plus producer-level scripts (0-3 producers that '
                 'write while alive and finish; the notification is delivered by the real ComponentState.stageIn subscription: exhaustive over '
-                'both finishing steps of two producers for <= 4/6 polls, and random); non-trivial = at least one launch and '
+                'both finishing steps of two producers for <= 4/6 polls, and random; whom it waits for is decided by the real ComponentState.producers: '
+                'random layouts with component names clashing across stages, duplicate / relative / loop references in any order, uninstantiated '
+                'earlier-stage producers, and exhaustively {same name, distinct} x {finished, not instantiated, alive} x 6 reference orders x the '
+                'finishing step of the subject for <= 3/5 polls); non-trivial = at least one launch and '
                 'the notification delivered; distinct by (cfg, consumed script)')
     cases = corpus()
     ctx.count('corpus_cases', len(cases))
@@ -485,6 +704,12 @@ def run(ctx):
         st += exhaustive_stagein(n)
     ctx.count('exhaustive_stagein_cases', len(st))
     cases += st
+    # ... and whom it waits for: name clashes across stages, duplicate references, uninstantiated producers
+    rf = []
+    for n in range(1, (5 if thorough else 3) + 1):
+        rf += exhaustive_refs(n)
+    ctx.count('exhaustive_reference_cases', len(rf))
+    cases += rf
     for _ in range(12000 if thorough else 1200):
         cases.append(gen_stagein(rng, thorough))
     explore(ctx, cases)
